@@ -71,3 +71,15 @@ package bag
 //@   on-call Apply#1 a-bag-of-its-own-per-value: $ncall_MakeInstance == $ncall_Apply + 1
 //@   loop rangeindex#1: invariant paired: $ncall_MakeInstance == $ncall_Call
 //@   loop rangeindex#3: invariant paired: $ncall_MakeInstance == $ncall_Apply
+
+// C18: parsing text into a bag stores a document of its own: the value that bag-parse / :parse puts into the
+// bag (as the whole document or at the path) is the new document this call's parse returned - never an object
+// that an earlier parse handed out, which a later parse could overwrite. (A converter set in the options
+// may replace values; then the stored value is what the converter returned.)
+//@ assume-contract ojg sen.MustParse / sen.MustParseReader / oj.MustParse (package-level functions) build a new document on every call; the result shares nothing with the result of an earlier call
+//@ func bag.parseBag
+//@   property C18
+//@   count-calls Convert
+//@   on-store Any the-document-of-this-parse: $ncall_Convert > 0 || fresh(now)
+//@   on-call MustSet the-document-of-this-parse: $ncall_Convert > 0 || fresh($arg1)
+//@   on-call MustSet into-the-bags-document: $arg0 == obj.Any
